@@ -83,6 +83,7 @@ def r1(db, rep):
         if f is None:
             rep.analysis_broken("%s vanished" % q)
             continue
+        f = facts.expanded(db, f)       # `check = helper(a, b)` reads as the expression the file-local helper returns
         g = cfg.FnCFG(f)
         idx, par = facts.index_fn(f)
         pb = f["params"][0]["var"]
